@@ -162,6 +162,9 @@ func newTenantModuleMap(mm *ugo.ModuleMap) *ugo.ModuleMap {
 	attrs["str"] = ugo.String("second tenant")
 	attrs["int"] = ugo.Int(77)
 	attrs["map"] = ugo.Map{"k": ugo.Int(70)}
+	// and items the first tenant's module does not have at all
+	attrs["extra"] = ugo.Int(5)
+	attrs["extrafn"] = &ugo.Function{Name: "extrafn", Value: func(args ...ugo.Object) (ugo.Object, error) { return ugo.String("second tenant only"), nil }}
 	mm2.AddBuiltinModule("host", attrs)
 	return mm2
 }
